@@ -229,6 +229,19 @@ class C01(Prop):
             data = G.odd_byte_in_residues(rng, f)
             ops = [self._op(data, f, abc, "mem", 0) for abc in rng.sample(["text", "amino", "dna", "rna"], 2)]
             out.append({"name": "odd%d" % len(out), "ops": ops})
+        # 3f. a line made only of NUL bytes (or NUL + blanks/tabs) ADJACENT to a block, every line-oriented format, text and digital:
+        #     the "blank line" test (esl_memspn) and the tokenizer (esl_memtok) must agree on it, or the block readers meet a
+        #     block line without a token ("can't happen" exceptions of selex_first_block / selex_other_block)
+        for i in range(260 if quick else 4000):
+            f = "selex" if i % 5 < 2 else ALL_FORMATS[(i // 5 * 3 + i % 5) % len(ALL_FORMATS)]
+            data = G.nul_line_adjacent(rng, f)
+            abcs = rng.sample(["text", "amino", "dna", "rna"], 2)
+            ops = [self._op(data, f, abc, "mem", 0) for abc in abcs]
+            if f != "selex" and rng.random() < 0.3: ops.append(self._op(data, f, abcs[0], rng.choice(["stream", "file"]), rng.choice([2, 5, 16, 0])))
+            if rng.random() < 0.2: ops.append(self._op(data, "auto", abcs[0], "mem", 0))
+            stats["kinds"]["nulline"] = stats["kinds"].get("nulline", 0) + 1
+            stats["formats"][f] = stats["formats"].get(f, 0) + 1
+            out.append({"name": "nulline%d" % len(out), "ops": ops})
         # 4. raw bytes
         for _ in range(n_raw):
             emit("raw", G.raw_bytes(rng), rng.choice(ALL_FORMATS + [None]))
